@@ -428,11 +428,18 @@ class ProcProxyThread(threading.Thread):
             )
         else:
             sp_stdin = sys.stdin
+        # Only the wrappers created here may be closed afterwards.  The
+        # process-wide sys.stdout/sys.stderr must never be closed: another
+        # alias thread may have them redirected at the moment this thread
+        # finishes, so an identity check against sys.std* at close time is
+        # not enough to recognise them.
+        owned_handles = []
         # stdout
         if self.c2pwrite != -1:
             sp_stdout = io.TextIOWrapper(
                 open(self.c2pwrite, "wb", -1, closefd=False), encoding=enc, errors=err
             )
+            owned_handles.append(sp_stdout)
         else:
             sp_stdout = sys.stdout
         # stderr
@@ -442,6 +449,7 @@ class ProcProxyThread(threading.Thread):
             sp_stderr = io.TextIOWrapper(
                 open(self.errwrite, "wb", -1, closefd=False), encoding=enc, errors=err
             )
+            owned_handles.append(sp_stderr)
         else:
             sp_stderr = sys.stderr
         # run the function itself
@@ -504,8 +512,8 @@ class ProcProxyThread(threading.Thread):
             if not last_in_pipeline:
                 # Close wrappers before closing raw fds to avoid
                 # "Bad file descriptor" on finalization in Python 3.14+.
-                safe_fdclose(sp_stdout)
-                safe_fdclose(sp_stderr)
+                for handle in owned_handles:
+                    safe_fdclose(handle)
                 # Close write ends via PipeChannel to signal EOF to downstream
                 for ch in spec.pipe_channels:
                     ch.close_writer()
@@ -515,7 +523,7 @@ class ProcProxyThread(threading.Thread):
                     self._stderr_pipe.close_writer()
                 return
             # clean up
-            for handle in (sp_stdout, sp_stderr):
+            for handle in owned_handles:
                 safe_fdclose(handle, cache=self._closed_handle_cache)
             # Close write ends via PipeChannel to signal EOF to readers
             for ch in spec.pipe_channels:
